@@ -6,6 +6,8 @@ import (
 	"os"
 	"sort"
 	"sync"
+
+	"golang.org/x/tools/go/ssa"
 )
 
 func main() {
@@ -23,6 +25,16 @@ func main() {
 		dump := fs.String("dump", "", "write failing queries to this directory")
 		fs.Parse(os.Args[2:])
 		code := cmdLemmas(*mod, *pkgp, *only, *dump)
+		cleanupScratch()
+		os.Exit(code)
+	case "vc":
+		fs := flag.NewFlagSet("vc", flag.ExitOnError)
+		mod := fs.String("module", "util/semver", "module directory under the repository")
+		pkgp := fs.String("pkg", "deps.dev/util/semver", "package path")
+		fnn := fs.String("func", "", "function name (pkg.Func, pkg.(*T).M); empty = all in package")
+		dump := fs.String("dump", "", "write failing queries to this directory")
+		fs.Parse(os.Args[2:])
+		code := cmdVC(*mod, *pkgp, *fnn, *dump)
 		cleanupScratch()
 		os.Exit(code)
 	case "check", "baseline":
@@ -108,4 +120,60 @@ func relDir(mod, pkgPath string) string {
 		return pkgPath[len(prefix)+1:]
 	}
 	return "."
+}
+
+func cmdVC(mod, pkgPath, fnName, dump string) int {
+	prog, err := LoadModule(mod)
+	if err != nil {
+		fmt.Fprintln(os.Stderr, err)
+		return 2
+	}
+	pp := prog.PPkgs[pkgPath]
+	specs, err := LoadSpecs(prog.Dir+"/"+relDir(mod, pkgPath), pkgPath, pp.Name)
+	if err != nil {
+		fmt.Fprintln(os.Stderr, err)
+		return 2
+	}
+	var fns []*ssa.Function
+	if fnName != "" {
+		f := prog.Func(fnName)
+		if f == nil {
+			fmt.Fprintln(os.Stderr, "no function", fnName)
+			return 2
+		}
+		fns = []*ssa.Function{f}
+	} else {
+		fns = prog.FuncsOfPackage(pkgPath)
+	}
+	var all []OblResult
+	var mu sync.Mutex
+	var wg sync.WaitGroup
+	sem := make(chan struct{}, 6)
+	for _, f := range fns {
+		wg.Add(1)
+		go func(f *ssa.Function) {
+			defer wg.Done()
+			sem <- struct{}{}
+			defer func() { <-sem }()
+			rs := VerifyFunc(prog, specs, f, "quick", nil, nil)
+			mu.Lock()
+			all = append(all, rs...)
+			mu.Unlock()
+		}(f)
+	}
+	wg.Wait()
+	sort.Slice(all, func(i, j int) bool { return all[i].Name < all[j].Name })
+	counts := map[string]int{}
+	for _, r := range all {
+		counts[r.Status]++
+		if fnName != "" || r.Status != "proved" {
+			fmt.Printf("%-11s %-70s %5.2fs %s %s\n", r.Status, r.Name, r.Secs, r.Solver, r.Detail)
+		}
+		if r.Status != "proved" && dump != "" && r.Query != "" {
+			os.MkdirAll(dump, 0o755)
+			os.WriteFile(dump+"/"+sanitize(r.Name)+".smt2", []byte(r.Query+"(check-sat)\n(get-model)\n"), 0o644)
+		}
+	}
+	fmt.Println(counts)
+	return 0
 }
